@@ -35,13 +35,15 @@ type c19Group struct {
 	// Soft: a server of this group goes "down" by failing its HTTP health check (503) while it keeps
 	// listening and would still answer requests
 	Soft bool `json:"down_means_health_check_answers_503"`
+	// FailOverThenBack: primaries down in the last phase before the recovery, whatever the random plan says
+	FailOverThenBack bool `json:"fail_over_then_back"`
 	// ProxyTimeout of the group's location (0 = none)
 	ProxyTimeout time.Duration `json:"proxy_timeout"`
 }
 
 func c19(r *hx.Run) {
 	r.Level = "fault_enumeration"
-	r.Rule = "G upstream groups in one in-process pike (whose unchanged configuration is re-applied before odd phases) plus two groups behind the real binary (eight round-robin primaries; primary+backup with policy first; all down / all up alternately, so that more than eight transitions to sick happen), each with 1-4 servers (every primary/backup mix incl. backups only), policy from {roundRobin, first, random, leastconn, default}, health check by ping path (/ping or /) or by port; in a quarter of the groups a server goes down by answering its health check with 503 while it keeps listening. Phases: initial (all up), then random up/down vectors (all down, primaries down, one down, ...), finally all up again; servers are really stopped and restarted on the same port. After each change the driver waits until a live server of the group has seen two complete health-check rounds that began after the change (pings/connections are visible at the origins; 11.5 s when nothing is alive), then sends 12 sequential requests per group: each must be served by a healthy primary, or by a healthy backup only if no primary is healthy; roundRobin counts over healthy primaries differ by <= 1; with nothing healthy every request gets a 5xx within 2 s (also after 200 clients sent their request and went away at once); after recovery traffic resumes. Finally, with everything healthy, single requests fail for reasons that are not the server's (the client gives up on a slow request after 150 ms; a request exceeds the location's 1.5 s proxy timeout) and, for groups with backups, one slow request is held in flight on every primary: the 12 requests that follow are judged by the same rule (the servers never failed a health check). Non-trivial = settled phase with at least one server down; distinct = (policy, ping kind, backup mix, up vector)."
+	r.Rule = "G upstream groups in one in-process pike (whose unchanged configuration is re-applied before odd phases) plus two groups behind the real binary (eight round-robin primaries; primary+backup with policy first; all down / all up alternately, so that more than eight transitions to sick happen), each with 1-4 servers (every primary/backup mix incl. backups only), policy from {roundRobin, first, random, leastconn, default}, health check by ping path (/ping or /) or by port; in a quarter of the groups a server goes down by answering its health check with 503 while it keeps listening. Five more groups (one per policy, primary + backup) fail over to the backup in the last phase before the recovery and must hand the traffic back. Phases: initial (all up), then random up/down vectors (all down, primaries down, one down, ...), finally all up again; servers are really stopped and restarted on the same port. After each change the driver waits until a live server of the group has seen two complete health-check rounds that began after the change (pings/connections are visible at the origins; 11.5 s when nothing is alive), then sends 12 sequential requests per group: each must be served by a healthy primary, or by a healthy backup only if no primary is healthy; roundRobin counts over healthy primaries differ by <= 1; with nothing healthy every request gets a 5xx within 2 s (also after 200 clients sent their request and went away at once); after recovery traffic resumes. Finally, with everything healthy, single requests fail for reasons that are not the server's (the client gives up on a slow request after 150 ms; a request exceeds the location's 1.5 s proxy timeout) and, for groups with backups, one slow request is held in flight on every primary: the 12 requests that follow are judged by the same rule (the servers never failed a health check). Non-trivial = settled phase with at least one server down; distinct = (policy, ping kind, backup mix, up vector)."
 	r.Assume = []string{"the health checker's 5 s ticker has no clock seam: settling is observed, the run is wall-clock bound", "behaviour inside the unsettled window is not judged"}
 	rnd := rand.New(rand.NewSource(r.Seed))
 	nGroups := r.Pick(14, 100)
@@ -67,6 +69,17 @@ func c19(r *hx.Run) {
 			gr.Up = append(gr.Up, true)
 			total++
 		}
+		groups = append(groups, gr)
+	}
+	// one more group per policy with a primary and a backup whose plan is fixed: the primary is down in the
+	// last phase before the recovery (traffic fails over to the backup) and must get the traffic back
+	for pi, pol := range policies {
+		gr := &c19Group{ID: nGroups + pi, Policy: pol, Backup: []bool{false, true}, Up: []bool{true, true}, FailOverThenBack: true}
+		if pi%2 == 1 {
+			gr.Ping = "/ping"
+		}
+		gr.Servers = []int{total, total + 1}
+		total += 2
 		groups = append(groups, gr)
 	}
 	port := hx.FreePorts(1)[0]
@@ -332,7 +345,7 @@ func c19(r *hx.Run) {
 	judge("initial")
 	for ph := 1; ph <= phases && !r.TooMany(); ph++ {
 		last := ph == phases
-		if ph%2 == 1 {
+		if ph%2 == 1 && !last { // (not before the recovery: what the pickers remember from the outage must not be wiped)
 			// the unchanged configuration is applied again (as any unrelated configuration change does):
 			// health checking must go on afterwards
 			if err := hx.Apply(w.Cfg); err != nil {
@@ -348,6 +361,8 @@ func c19(r *hx.Run) {
 					// the real binary: everything down in odd phases, everything up in even ones
 					// (many transitions to "sick" over the process lifetime)
 					want = ph%2 == 0
+				} else if !last && g.FailOverThenBack && ph == phases-1 {
+					want = g.Backup[i] // primaries down: the backup takes over
 				} else if !last {
 					switch (g.ID + ph) % 4 {
 					case 0:
